@@ -729,3 +729,90 @@ Lemma w_field_named_marshaljson :
   refuted (one [msg "A" [fld "marshal_j_s_o_n" KString Singular None []; fld "big" KInt64 Singular None [AI64]] []])
           ["field-named-like-codec-method"] OnlyClient ["redeclared"].
 Proof. refute. Qed.
+
+(* ================================================================================================ *)
+(* several annotated things of one kind in one scope                                                 *)
+(* ================================================================================================ *)
+
+(* The emitters print one block per discriminated oneof / annotated field into ONE MarshalJSON and one
+   UnmarshalJSON body of the message.  In the model no obligation couples two such blocks: a message
+   with k discriminated oneofs meets its obligations iff each of them does alone, and it declares
+   ONE MarshalJSON for them however many there are. *)
+Lemma forallb_all_ok_flat_map {A} (g : A -> list check) l :
+  all_ok (flat_map g l) = forallb (fun x => all_ok (g x)) l.
+Proof. induction l as [|x r IH]; simpl; [reflexivity|]. rewrite all_ok_app, IH. reflexivity. Qed.
+
+Theorem discriminated_oneofs_independent sc fl m :
+  all_ok (feature_checks sc fl m FOneof) = forallb (fun o => all_ok (oneof_checks sc fl m o)) (disc_oneofs m).
+Proof. unfold feature_checks. apply forallb_all_ok_flat_map. Qed.
+
+Lemma count_occ_filter_feature (P : feature -> bool) (ft : feature) (l : list feature)
+      (dec : forall a b : feature, {a = b} + {a <> b}) :
+  count_occ dec (filter P l) ft <= count_occ dec l ft.
+Proof.
+  induction l as [|x r IH]; simpl; [lia|].
+  destruct (P x); simpl; destruct (dec x ft); lia.
+Qed.
+
+Definition feature_dec : forall a b : feature, {a = b} + {a <> b}.
+Proof. decide equality. Defined.
+
+(* each feature contributes at most one MarshalJSON to a message, whatever the number of annotated
+   oneofs / fields of that feature *)
+Theorem one_marshaljson_per_feature p sc fl m ft :
+  count_occ feature_dec (emitted_features p sc fl m) ft <= 1.
+Proof.
+  unfold emitted_features.
+  eapply Nat.le_trans; [apply count_occ_filter_feature|].
+  destruct ft; vm_compute; lia.
+Qed.
+
+(* hence a message whose only codec feature is the discriminated oneof declares exactly one method,
+   for any number k >= 1 of annotated oneofs *)
+Theorem only_oneofs_one_method p sc fl m :
+  emitted_features p sc fl m = [FOneof] -> marshal_methods p sc fl m = [s "MarshalJSON"] /\ nodup_strb (marshal_methods p sc fl m) = true.
+Proof. unfold marshal_methods. intros ->. split; reflexivity. Qed.
+
+Definition flat_oneof (n d : string) : oneof := {| o_name := s n; o_has_cfg := true; o_discriminator := s d; o_flatten := true |}.
+(* k = 2 and k = 3 discriminated oneofs in one message (flattened and not), the same variant types and
+   discriminator values in two of them, next to a plain oneof: accepted, no defect, builds and vets for
+   every plugin subset *)
+Definition multi_oneof_schema : schema :=
+  one [msg "Va" [fld "va_text" KString Singular None []] []; msg "Vb" [fld "vb_text" KString Singular None []] [];
+       msg "Vc" [fld "vc_text" KString Singular None []] [];
+       msg "A" [fld "id" KString Singular None [];
+                fld "shape_a" (M "Va") Singular (Some "shape") []; fld "shape_b" (M "Vb") Singular (Some "shape") [AVal "second"]; fld "shape_s" KString Singular (Some "shape") [];
+                fld "paint_a" (M "Va") Singular (Some "paint") []; fld "paint_b" (M "Vb") Singular (Some "paint") [AVal "second"];
+                fld "p_a" KString Singular (Some "plain") []; fld "p_b" KInt32 Singular (Some "plain") []]
+               [disc_oneof "shape" "shapeKind"; disc_oneof "paint" "paintKind"; plain_oneof "plain"];
+       msg "B" [fld "id" KString Singular None [];
+                fld "x_a" (M "Va") Singular (Some "x") []; fld "y_a" (M "Vb") Singular (Some "y") []; fld "z_a" (M "Vc") Singular (Some "z") []; fld "z_s" KBool Singular (Some "z") []]
+               [flat_oneof "x" "xKind"; disc_oneof "y" "yKind"; flat_oneof "z" "zKind"]].
+Lemma multi_oneof_vets :
+  accepted multi_oneof_schema = true /\ defects_C13 multi_oneof_schema = [] /\
+  go_vets multi_oneof_schema OnlyHttp = true /\ go_vets multi_oneof_schema OnlyClient = true /\ go_vets multi_oneof_schema Both = true /\
+  ts_loads multi_oneof_schema = true.
+Proof. vm_compute. repeat split; reflexivity. Qed.
+
+(* several services in one file.  Distinct rpc names, shared request / response messages, the same
+   header names at service and method level, several methods of one service with the same messages:
+   everything builds, vets and loads *)
+Definition shared_services (users orders : list string) : schema :=
+  [file_of "a.proto" [msg "Q" [fld "id" KString Singular None []; fld "page" KInt32 Singular None [AQuery]] []; msg "Item" [fld "id" KString Singular None []] []] []
+     [svc "UserService" ["X-API-Key"; "X-Trace-ID"]
+          [rpc (nth 0 users "") "Q" "Item" 1 "/u/{id}" ["X-Request-ID"]; rpc (nth 1 users "") "Q" "Item" 1 "/f/{id}" ["X-Request-ID"]; rpc (nth 2 users "") "Item" "Item" 3 "/p" ["X-Request-ID"; "X-Trace-ID"]];
+      svc "OrderService" ["X-API-Key"; "X-Trace-ID"]
+          [rpc (nth 0 orders "") "Q" "Item" 1 "/o/{id}" ["X-Request-ID"]; rpc (nth 1 orders "") "Item" "Item" 3 "/p" ["X-Request-ID"; "X-Trace-ID"]]]].
+Lemma shared_services_build :
+  let sc := shared_services ["GetUser"; "FindUser"; "PutUser"] ["GetOrder"; "PutOrder"] in
+  accepted sc = true /\ defects_C13 sc = [] /\ go_vets sc OnlyHttp = true /\ go_vets sc OnlyClient = true /\ go_vets sc Both = true /\ ts_loads sc = true.
+Proof. vm_compute. repeat split; reflexivity. Qed.
+(* the same with equal rpc names in both services: the Go server's package-level get<Method>Headers /
+   <method>PathParams / <method>QueryParams clash (the known class), and NOTHING else does: the Go client
+   builds and vets, both TypeScript modules load *)
+Lemma same_rpc_names_only_go_server_clashes :
+  let sc := shared_services ["Get"; "Find"; "Put"] ["Get"; "Put"] in
+  accepted sc = true /\ defects_C13 sc = [s "same-method-name-two-services"] /\
+  go_vets sc OnlyHttp = false /\ failing_classes sc OnlyHttp = [s "redeclared"] /\
+  go_vets sc OnlyClient = true /\ ts_loads sc = true.
+Proof. vm_compute. repeat split; reflexivity. Qed.
